@@ -2,6 +2,8 @@ CONSTANTS
   Procs = {p1}
   MaxBinds = 1
   MaxTagSet = 0
+  NKindsSingle = 11
+  Bounds = FALSE
   NRand = 0
   NMulti = 0
   NReqMulti = 4
